@@ -398,6 +398,7 @@ func (s *state) applyModifies(fc *funcContract, e *env, pre *state, what string,
 		}
 		if bases, ok := e.typeLevelMod(m.e.e); ok {
 			s.checkFrameWhole(bases, d)
+			s.checkGuard(bases, d) // a callee that writes lock-protected state must be called with the lock held
 			for _, h := range s.heapNames() {
 				base := h
 				if i := strings.Index(h, "."); i >= 0 {
@@ -423,6 +424,7 @@ func (s *state) applyModifies(fc *funcContract, e *env, pre *state, what string,
 			bases = []string{"M"}
 		}
 		s.checkFrame(bases, ref, off, d)
+		s.checkGuard(bases, d)
 		if isInlineField(t) && !isRawRef(p.S[0]) {
 			panic(engineErr("modifies of a whole struct/array location: list the fields or use T.f"))
 		}
